@@ -151,25 +151,27 @@ CLAIMS = {
   'text': 'parseFile_comments_sorted (Props/HoareMain.lean): for every text, profile and fuel, if parse_file accepts then the offsets of File.comments are strictly increasing: the invariant (list sorted, all before the scanner position) is carried through every production, every goback, line_end_comment and every caught error. '
           'parseFile_comments_real / RealComment.verbatim: each entry is a comment token that the scanner produces from the source at exactly the entry\'s offset, and its non-empty text stands there verbatim - nothing in the list is invented, moved or altered. '
           'Proved for every parser state: goback keeps exactly the comments that start before the restored position (goback_comments), the comment loop of next() only appends (commentLoop_appends), a raw scanner step does not touch the list, and a comment token\'s text is the source text at its offset. '
+          'No comment is skipped by next (Props/C11b.lean, next_comments): a successful Parser::next walks the scanner until a token that is not a comment and appends to the list exactly the comment tokens the scanner returned on the way, in order, with offset and verbatim text, and nothing else. '
           'The end-to-end statement File.comments = comments of the source is decided by execution: generated programs and the token lists of all corpus programs are rendered with line and general comments at random gaps up to every gap (including inside re-read type-parameter lists, array lengths with struct literals, interface and struct bodies, after struct fields on the same line), and the returned list must equal the (offset, text) list the layout engine wrote, in order. Partial proof.',
-  'note': 'That no comment is missing (the list is the complete list of comment tokens) is not a theorem; it is decided by the layout oracle.',
+  'note': 'That no comment is missing from the whole file is a theorem per call of next (next_comments) but not for the whole parse: that the calls of next and goback add up to one pass over the file needs the scan trajectory; it is decided by the layout oracle.',
  },
  'C12': {
   'category': 'proof',
-  'technique': 'Lean 4 proof that the line numbers the doc-comment grouping compares are true lines (sorted table) and whole-parser invariant that documentation is made of source comments + generated declaration sequences with every comment placement at every line against the documentation oracle of DESIGN A.6',
+  'technique': 'Lean 4 proof of the grouping rule itself (the model of Parser::next leaves pending exactly finish(leadRun(run)) on the true line numbers of the source: blank line cuts the group, trailing comments are never documentation, the attached group is reported whole and alone), proof that the line numbers compared are true lines, and whole-parser invariant that documentation is made of source comments + generated declaration sequences with every comment placement at every line against the documentation oracle of DESIGN A.6',
   'text': 'Proved: Scanner::line_of is the true 1-based line on every sorted table, monotone, and equal for two offsets exactly when no line start lies between them - so the three comparisons of Parser::next (new group after a gap, group dropped before a distant token, comment trailing the previous token) test what they say. '
           'Whole parser (Hoare logic, induction on fuel): pending lead comments are only ever comment tokens of the source (invariant `lead`), so what drain_comments hands out is made of source comments (drainComments_spec), and in the returned tree the documentation of the file, of every top-level declaration and of every spec consists of comment tokens of the source (parseFile_docs_real, parseFile_decls_real). '
-          'The attachment rule itself is decided by execution: generated sequences of package clause, func/var/const/type declarations, grouped specs and struct fields with, before each item, one of {none, attached group, multi-line general comment, detached group, trailing comment on the previous line, detached+attached}, items starting on any line including 1-3, comments inside the previous body; '
+          'The grouping rule is a theorem (Props/C12b.lean, C12c.lean): next_run - from every parser state with an exact line table a successful next appends a run of comments and leaves pending exactly finish(leadRun(pending, 0, line of the previous token\'s end, run)) evaluated on true line numbers; next_cut (a blank line between two comments: nothing before it is reported), next_near (what is pending ends on the token\'s line or the one above), next_trailing (comments chained to the end of the previous token are never reported), next_attached (an unbroken run after a blank line, reaching the token, is reported whole, alone, in order), next_chained (the pending list is an unbroken run; entry condition stated and shown necessary). '
+          'Where the productions drain the pending list (which declaration, spec or field receives it) and the struct-field line-end comment are decided by execution: generated sequences of package clause, func/var/const/type declarations, grouped specs and struct fields with, before each item, one of {none, attached group, multi-line general comment, detached group, trailing comment on the previous line, detached+attached}, items starting on any line including 1-3, comments inside the previous body; '
           'the documentation reported for each item (and the line-end comment of each struct field) must be the expected group. The two defects this exhibited on the original tree (trailing comment taken as doc; detached comment on lines 1-2 attached) were repaired by one fix: commit. Partial proof.',
-  'note': 'The sortedness of the line table is an invariant of the scanner (append-only while scanning forward, truncated by goback) compared on every scan case, not yet a theorem.',
+  'note': 'The rule is proved for one call of next from a state with an exact line table (LinesOK, kept by next_token and goback); carrying it through the whole parse to each documentation field of the tree (which production drains where) is not a theorem and is decided by the placement oracle.',
  },
  'C15': {
   'category': 'proof',
-  'technique': 'Lean 4 step lemmas of the level-restoration invariant (open-recursion bodies) and of the backtracking state + fragment / prefix / call-history differential with positions shifted',
-  'text': 'Proved for every state: parse_next_level_expr and type_ restore the nesting level on success given their callees do (steps of the whole-parser induction), the decrement also runs on the error path, inc then dec is the identity; backtracking keeps exactly the comments before the restored position; line numbers used later are true lines; the scanner is position independent (Props/C15b.lean: view_eq, scan_embedded, scan_fragment - same remaining text and flag give the same tokens shifted by the position difference, over any source, line table and profile) and repeats after goback exactly what it did from the mark (goback_same_tokens). '
+  'technique': 'Lean 4 proofs that each of the nine places where parser.rs changes expr_level puts it back on success (calculus Frame / LQ / LS over the parser monad), that no helper function touches it, and that 18 further production bodies restore it given callees that do; scanner position independence; + fragment / prefix / call-history differential with positions shifted',
+  'text': 'Proved for every state (Props/C15.lean, C15c-g): all nine sites that change the nesting level restore it on success - type_, type_list (three exits), parse_next_level_expr (the decrement also runs on the error path), parse_lit_value, parse_block_stmt, the speculative expression of parse_type_spec (five exits, two gobacks), and the save / -1 / restore of parse_if_header, parse_switch_stmt and parse_for_stmt (four exits) whatever the header\'s callees do; every helper function of parser.rs:42-281 (next with its comment loop, goback, expect, line_end_comment, ...) never changes the level, success or failure (Frame); 18 production bodies that do not touch the level restore it given a table of callees that does (TblLP); backtracking keeps exactly the comments before the restored position; line numbers used later are true lines; the scanner is position independent (Props/C15b.lean: view_eq, scan_embedded, scan_fragment - same remaining text and flag give the same tokens shifted by the position difference, over any source, line table and profile) and repeats after goback exactly what it did from the mark (goback_same_tokens). '
           'The whole statement is decided by execution: corpus and generated declarations, statements and expressions are parsed alone and embedded after state-leaving prefixes (re-read type-parameter lists and array lengths, control headers, 60-deep nesting, interface elements that fail as methods, multi-line tokens, non-ASCII comments before blank lines, generated declaration sequences in random layouts); '
           'the embedded subtree must equal the stand-alone tree with every position shifted by the prefix length; sequences of statements parsed by repeated parse_stmt calls on one parser must each equal their stand-alone parse. Partial proof.',
-  'note': 'The induction over all ~60 productions (every production restores the level on success) is not assembled yet; the long flat files of C02 (each construct 70 times) exercise level leaks as well.',
+  'note': 'The induction over the whole table (every production restores the level, for every fuel) is written (tools/C15h.lean.draft) but not closed: 29 bodies with inner loops are missing and parse_interface_type needs a token-level fact (DESIGN 11.7); the long flat files of C02 (each construct 70 times) exercise level leaks as well.',
  },
 }
 NOT_CLAIMED = {}
